@@ -295,6 +295,7 @@ fn hist_opts(mark_all: bool) -> GraphOpts {
         sized: true,
         wide: false,
         mega: false,
+        symlinks: false,
     }
 }
 
